@@ -459,6 +459,44 @@ def run(tier, seed):
                     res.violate(msg, {"check": "include", "files": {k.replace(root, "<root>"): v for k, v in files.items()}, "main": "<root>/main.xbb", "inlined": inlined})
                 os.chdir(scratch)
                 shutil.rmtree(root, ignore_errors=True)
+            # "nested to any depth": chains of 20 and 40 includes (beyond the fuel of the model's loader: judged against hand inlining)
+            for depth in ((20,) if quick else (20, 40, 80)):
+                root = os.path.join(scratch, "N%d" % depth)
+                files = {}
+                for k in range(1, depth + 1):
+                    dpath = os.path.join(root, *["d%d" % j for j in range(1, k + 1)])
+                    body = "name L%d\nversion 1.0\n" % k
+                    if k < depth:
+                        body += 'include "d%d/l%d.xbb"\n\nRgate(%d) | 0\nL%d | [1, 0]\n' % (k + 1, k + 1, k, k + 1)
+                    else:
+                        body += "\nRgate(%d) | 0\nSgate(0.5) | 1\n" % k
+                    files[os.path.join(dpath, "l%d.xbb" % k)] = body
+                files[os.path.join(root, "main.xbb")] = 'name main\nversion 1.0\ninclude "d1/l1.xbb"\n\nL1 | [0, 1]\n'
+                write_files(files)
+                exp = []
+                a, b = 0, 1
+                for k in range(1, depth + 1):
+                    exp.append(("Rgate", float(k), a))
+                    if k == depth:
+                        exp.append(("Sgate", 0.5, b))
+                    a, b = b, a
+                msg = None
+                try:
+                    os.chdir(scratch)
+                    impl.reset_tables()
+                    p = blackbird.load(os.path.join(root, "main.xbb"))
+                    got = [(o["op"], float(o["args"][0]), int(o["modes"][0])) for o in p.operations]
+                    if got != exp:
+                        k = next((j for j, (x, y) in enumerate(zip(got, exp)) if x != y), min(len(got), len(exp)))
+                        msg = "a chain of %d nested includes differs from its inlining at operation %d: %s vs %s" % (depth, k, got[k:k + 1], exp[k:k + 1])
+                except Exception as e:  # noqa: BLE001
+                    msg = "loading a chain of %d nested includes fails: %s: %s" % (depth, type(e).__name__, str(e)[:120])
+                res.case("nested-chain-%d" % depth, True, None)
+                res.count("nested-include-chain")
+                if msg:
+                    ok = False
+                    res.violate(msg, {"check": "include-chain", "depth": depth})
+                shutil.rmtree(root, ignore_errors=True)
             # keyword arguments of an include call that are measured registers (or expressions over them)
             for i in range(25 if quick else 500):
                 if len(res.violations) >= 5:
